@@ -133,7 +133,7 @@ def Splitter.reinit (c : Chunk) : Splitter := ⟨c, 0, 0⟩
     `s[i:]` (`s[i]` on an exhausted string raises IndexError, which the Python loop can reach only from
     a state with `internal_offset > len(s)`).
     Result: `(returned width, new chunk, new internal_offset, width added to internal_width)`. -/
-def requestLoop (u : UEnv) (s : Text) (atts : Atts) (maxWidth : Int) (startOffset : Nat) :
+def requestLoop (u : UEnv) (s : Text) (atts : Atts) (maxWidth : Int) (startOffset : Nat) (length : Nat) :
     List Char → Nat → Int → Except PyErr (Int × Chunk × Nat × Int)
   | [], _, _ => .error .indexError
   | c :: rest, i, width =>
@@ -147,9 +147,9 @@ def requestLoop (u : UEnv) (s : Text) (atts : Atts) (maxWidth : Int) (startOffse
       else .ok (width, ⟨piece, atts⟩, i, width)
     else
       let width := width + w
-      if i + 1 = s.length then
+      if i + 1 = length then
         .ok (width, ⟨(s.take (i + 1)).drop startOffset, atts⟩, i + 1, width)
-      else requestLoop u s atts maxWidth startOffset rest (i + 1) width
+      else requestLoop u s atts maxWidth startOffset length rest (i + 1) width
 
 /-- `ChunkSplitter.request(max_width)`: `none` = "no chunks left". -/
 def Splitter.request (u : UEnv) (sp : Splitter) (maxWidth : Int) :
@@ -157,7 +157,7 @@ def Splitter.request (u : UEnv) (sp : Splitter) (maxWidth : Int) :
   if maxWidth < 1 then .error .valueError
   else if sp.internalOffset = sp.chunk.s.length then .ok (none, sp)
   else
-    match requestLoop u sp.chunk.s sp.chunk.atts maxWidth sp.internalOffset
+    match requestLoop u sp.chunk.s sp.chunk.atts maxWidth sp.internalOffset sp.chunk.s.length   -- `length = len(s)`
         (sp.chunk.s.drop sp.internalOffset) sp.internalOffset 0 with
     | .error e => .error e
     | .ok (w, ch, off, dw) =>
